@@ -88,9 +88,15 @@ func (s *storageAdapter) executeQuery(ctx context.Context) {
 	case promql.Matrix:
 		s.series = make([]engstore.SignedSeries, len(val))
 		for i, series := range val {
+			// The query is closed when this function returns, and closing a query
+			// of the Prometheus engine (the remote engine may have fallen back to
+			// it) hands its point slices back to a pool shared by all queries.
+			// Keep a private copy of the points.
+			points := make([]promql.Point, len(series.Points))
+			copy(points, series.Points)
 			s.series[i] = engstore.SignedSeries{
 				Signature: uint64(i),
-				Series:    promql.NewStorageSeries(series),
+				Series:    promql.NewStorageSeries(promql.Series{Metric: series.Metric, Points: points}),
 			}
 		}
 	case promql.Vector:
